@@ -295,7 +295,7 @@ func init() {
 	core.Register(&core.Prop{
 		ID:    "C11",
 		Level: "exploration",
-		Rule:  "every XML document with 1-3 elements (thorough: 4, reduced alphabets) over names {a,b,p:a}, attributes {none,k,p:k,k+p:k}, text before/after the children (also in several pieces: next to CDATA sections, around comments and processing instructions) x every expression of the grammar (11 axes + attribute x node tests {a,b,p:a,*,text(),node()} x 17 predicates incl. positional, last(), attribute, string-value, count, name; 60 abbreviated/union/function expressions; 20 expressions whose string literals contain runs of spaces, tabs or line breaks over documents whose values differ only in white space; thorough: 2-step paths) x every context node (document node, every element and text node); idr.MatchAll results must equal, in number, order, identity (child-index path) and string-value, the results of the same compiled expression over a plain reference DOM with a straightforward navigator; distinct by (document, expression, context)",
+		Rule:  "every XML document with 1-3 elements (thorough: 4, reduced alphabets) over names {a,b,p:a}, attributes {none,k,p:k,k+p:k}, text before/after the children, two documents with one URI under two prefixes in nested scopes, one document nested 300 deep (also text in several pieces: next to CDATA sections, around comments and processing instructions) x every expression of the grammar (11 axes + attribute x node tests {a,b,p:a,*,text(),node()} x 17 predicates incl. positional, last(), attribute, string-value, count, name; 60 abbreviated/union/function expressions; 20 expressions whose string literals contain runs of spaces, tabs or line breaks over documents whose values differ only in white space; thorough: 2-step paths) x every context node (document node, every element and text node); idr.MatchAll results must equal, in number, order, identity (child-index path) and string-value, the results of the same compiled expression over a plain reference DOM with a straightforward navigator; distinct by (document, expression, context)",
 		Assumptions: []string{
 			"the xpath engine (antchfx/xpath v1.1.11) is shared; the reference is its straightforward DOM binding (ref/dom.go, modelled on antchfx/xmlquery's navigator, whose context node is the navigator root), built from encoding/xml raw tokens",
 			"documents bind every namespace URI to one prefix (the two-prefix deviation is C08's known finding)",
@@ -376,6 +376,75 @@ func init() {
 									c.HarnessError(sig + ": " + detail)
 								} else if sig != "" {
 									c.Violation(sig, detail, cs, func() string { s, _ := c11Check(cs, nil, nil); return s })
+								}
+							}
+						}
+					}
+				}
+			}
+			// special documents: (a) one URI under two prefixes, the second declared on an inner element - names
+			// inside and outside that element's scope; (b) nesting 300 deep with the only text at the bottom (the
+			// string-value of every ancestor is that text), contexts: the document node and a few depths
+			{
+				nsDocs := []string{
+					`<a xmlns:p="u"><b xmlns:q="u"><q:a k="1">1</q:a><b><q:a>2</q:a></b></b><p:a>3</p:a></a>`,
+					`<a xmlns:p="u"><p:a>0</p:a><b xmlns="u" xmlns:q="v"><a>1</a><q:a>2</q:a></b><p:a p:k="2">3</p:a></a>`,
+				}
+				nsExprs := append(append([]string{}, kept...), "//q:a", "//q:a[1]", "/a/b/q:a", "//*[name()='q:a']", "//*[name()='p:a']", "//b//q:a | //p:a", "//q:a/@k", "//*[local-name()='a']", "//q:*", "//p:*")
+				for _, doc := range nsDocs {
+					idx++
+					if !c.Mine(idx) {
+						continue
+					}
+					d, err := c11Load(doc)
+					if err != nil {
+						c.HarnessError("cannot load " + doc + ": " + err.Error())
+						continue
+					}
+					c.Count("documents", 1)
+					for _, e := range nsExprs {
+						x, err := xpath.Compile(e)
+						if err != nil {
+							continue
+						}
+						for _, ctxPath := range d.paths {
+							cs := c11Case{Doc: doc, Expr: e, Context: ctxPath}
+							c.Begin(func() interface{} { return cs })
+							sig, detail := c11Check(cs, d, x)
+							c.Eval("ns2|" + e)
+							if strings.HasPrefix(sig, "harness:") {
+								c.HarnessError(sig + ": " + detail)
+							} else if sig != "" {
+								c.Violation(sig, detail, cs, func() string { s, _ := c11Check(cs, nil, nil); return s })
+							}
+						}
+					}
+				}
+				idx++
+				if c.Mine(idx) {
+					deep := strings.Repeat("<a>", 300) + "x" + strings.Repeat("</a>", 300)
+					d, err := c11Load(deep)
+					if err != nil {
+						c.HarnessError("cannot load the deep document: " + err.Error())
+					} else {
+						c.Count("documents", 1)
+						for _, e := range []string{"/a[.='x']", "//a[.='x']", "//a[string-length(.)=1]", "//a[contains(.,'x')]", "//a[not(a)]", "//a[.='']", "/a/a/a[.='x']", "//text()", "//a[count(ancestor::a)=299]", "//a[count(descendant::a)=299]", "(//a)[last()]", "//a[not(a)]/ancestor::a[.='x']", "self::node()[.='x']", "a[.='x']", "..", "ancestor-or-self::a[.='x']"} {
+							x, err := xpath.Compile(e)
+							if err != nil {
+								continue
+							}
+							for i, ctxPath := range d.paths {
+								if i > 3 && i != 150 && i != 255 && i != 256 && i != 257 && i < len(d.paths)-3 {
+									continue
+								}
+								cs := c11Case{Doc: deep, Expr: e, Context: ctxPath}
+								c.Begin(func() interface{} { return cs })
+								sig, detail := c11Check(cs, d, x)
+								c.Eval("deep|" + e)
+								if strings.HasPrefix(sig, "harness:") {
+									c.HarnessError(sig + ": " + detail)
+								} else if sig != "" {
+									c.Violation(sig, trunc2(detail, 600), cs, func() string { s, _ := c11Check(cs, nil, nil); return s })
 								}
 							}
 						}
